@@ -13,6 +13,10 @@ pub fn self_test_codec() -> Result<(), String> {
     Ok(())
 }
 
+pub fn self_test_schema() -> Result<(), String> {
+    crate::schematree::self_test()
+}
+
 pub fn case_json(shape: &Shape, value: &Value) -> Json {
     json!({"shape": shape, "value": value})
 }
